@@ -40,6 +40,11 @@ use ckb_verification::{CapacityVerifier, TimeRelativeTransactionVerifier, TxVeri
 use std::collections::{HashMap, HashSet};
 use std::sync::Arc;
 
+#[path = "c04_node.rs"]
+mod node_stream;
+#[path = "c04_rules.rs"]
+mod rules_stream;
+
 // ------------------------------------------------------------------------------------------------
 // helpers
 // ------------------------------------------------------------------------------------------------
@@ -943,6 +948,10 @@ fn script(args: usize, dao: bool) -> Script {
 fn exec_cap(lines: &[String], out: &mut Out) {
     for line in lines {
         let t: Vec<&str> = line.split(' ').collect();
+        if t[0] == "occ" || t[0] == "lack" || t[0] == "bytes" {
+            exec_occ(&t, line, out);
+            continue;
+        }
         assert!(t[0] == "cap", "cap: bad op {line:?}");
         let ins: Vec<(u64, bool)> = plist(t[1])
             .iter()
@@ -1020,7 +1029,115 @@ fn exec_cap(lines: &[String], out: &mut Out) {
     }
 }
 
+/// `occ <lock_args> <type_args|n> <data_capacity>`, `lack <capacity> <lock_args> <type_args|n> <data_capacity>`,
+/// `bytes <n>`: the real `CellOutput::{occupied_capacity, is_lack_of_capacity}` and `Capacity::bytes`
+/// on arbitrary (also unrealistically large) data capacities, so that every `Overflow` branch of the
+/// checked chain is reached; oracle = the closed form on u128.
+fn exec_occ(t: &[&str], line: &str, out: &mut Out) {
+    let show = |r: Result<Capacity, ckb_occupied_capacity::Error>| match r {
+        Ok(c) => format!("some {}", c.as_u64()),
+        Err(_) => "overflow".to_string(),
+    };
+    let closed = |l: u64, ty: Option<u64>, dc: u64| -> Option<u128> {
+        let v = (8 + 33 + l as u128 + ty.map(|a| 33 + a as u128).unwrap_or(0)) * 100_000_000 + dc as u128;
+        if v < (1u128 << 64) { Some(v) } else { None }
+    };
+    let mk = |c: u64, l: u64, ty: Option<u64>| {
+        let mut ob = CellOutput::new_builder().capacity(Capacity::shannons(c)).lock(script(l as usize, false));
+        if let Some(a) = ty {
+            ob = ob.type_(Some(script(a as usize, false)));
+        }
+        ob.build()
+    };
+    let pty = |s: &str| if s == "n" { None } else { Some(pnum(s)) };
+    match t[0] {
+        "bytes" => {
+            let n = pnum(t[1]);
+            let r = quiet_catch(|| Capacity::bytes(n as usize));
+            let ans = match r { Ok(r) => show(r), Err(()) => "panic".into() };
+            out.op(line, &ans);
+            out.count(&format!("bytes:{}", ans.split(' ').next().unwrap()));
+            let spec = n as u128 * 100_000_000;
+            let want = if spec < (1u128 << 64) { format!("some {spec}") } else { "overflow".to_string() };
+            if ans != want {
+                out.oracle_fail("capacity-bytes-closed-form", &format!("want={want} impl={ans} op={line}"));
+            }
+        }
+        "occ" => {
+            let (l, ty, dc) = (pnum(t[1]), pty(t[2]), pnum(t[3]));
+            let o = mk(0, l, ty);
+            let r = quiet_catch(|| o.occupied_capacity(Capacity::shannons(dc)));
+            let ans = match r { Ok(r) => show(r), Err(()) => "panic".into() };
+            out.op(line, &ans);
+            out.count(&format!("occ:{}", ans.split(' ').next().unwrap()));
+            out.nontrivial(format!("occ/{}/{}", ans.split(' ').next().unwrap(), ty.is_some()));
+            let want = match closed(l, ty, dc) { Some(v) => format!("some {v}"), None => "overflow".to_string() };
+            if ans != want {
+                out.oracle_fail("occupied-capacity-closed-form", &format!("want={want} impl={ans} op={line}"));
+            }
+        }
+        _ => {
+            let (c, l, ty, dc) = (pnum(t[1]), pnum(t[2]), pty(t[3]), pnum(t[4]));
+            let o = mk(c, l, ty);
+            let r = quiet_catch(|| o.is_lack_of_capacity(Capacity::shannons(dc)));
+            let ans = match r { Ok(Ok(b)) => b.to_string(), Ok(Err(_)) => "overflow".into(), Err(()) => "panic".into() };
+            out.op(line, &ans);
+            out.count(&format!("lack:{ans}"));
+            out.nontrivial(format!("lack/{ans}/{}", ty.is_some()));
+            let want = match closed(l, ty, dc) { Some(v) => (v > c as u128).to_string(), None => "overflow".to_string() };
+            if ans != want {
+                out.oracle_fail("lack-of-capacity-closed-form", &format!("want={want} impl={ans} op={line}"));
+            }
+        }
+    }
+}
+
+fn gen_occ(rng: &mut Rng) -> Vec<String> {
+    let l = *rng.pick(&[0u64, 1, 20, 32, 100, 1000]);
+    let ty = if rng.chance(1, 2) { Some(*rng.pick(&[0u64, 20, 32, 500])) } else { None };
+    let tys = ty.map(|a| a.to_string()).unwrap_or("n".into());
+    let fixed: u128 = (8 + 33 + l as u128 + ty.map(|a| 33 + a as u128).unwrap_or(0)) * 100_000_000;
+    let edge = ((1u128 << 64) - fixed) as u64; // smallest data capacity that overflows
+    // partial sums of the code's chain, each at its own edge
+    let c8: u128 = 800_000_000;
+    let lock: u128 = (33 + l as u128) * 100_000_000;
+    let dc = match rng.below(10) {
+        0 => edge,
+        1 => edge - 1,
+        2 => edge + 1,
+        3 => ((1u128 << 64) - c8) as u64 - rng.below(2),          // first safe_add at its edge
+        4 => ((1u128 << 64) - c8 - lock) as u64 - rng.below(2),   // second safe_add at its edge
+        5 => u64::MAX - rng.below(3),
+        6 => 0,
+        7 => rng.below(1000) * 100_000_000,
+        _ => edge.wrapping_add(rng.below(5)).wrapping_sub(2),
+    };
+    match rng.below(4) {
+        0 => {
+            let n = match rng.below(6) {
+                0 => 184_467_440_737u64,      // largest n with n * 10^8 < 2^64
+                1 => 184_467_440_738,
+                2 => u64::MAX,
+                3 => 0,
+                4 => 184_467_440_737 - rng.below(3),
+                _ => rng.next(),
+            };
+            vec![format!("bytes {n}")]
+        }
+        1 => {
+            // capacity exactly at / around the occupied capacity
+            let occ = fixed + dc as u128;
+            let c = if occ < (1u128 << 64) { (occ as u64).wrapping_add(rng.below(3)).wrapping_sub(1) } else { u64::MAX - rng.below(2) };
+            vec![format!("lack {c} {l} {tys} {dc}")]
+        }
+        _ => vec![format!("occ {l} {tys} {dc}")],
+    }
+}
+
 fn gen_cap(rng: &mut Rng) -> Vec<String> {
+    if rng.chance(1, 4) {
+        return gen_occ(rng);
+    }
     let nout = rng.range(1, 4);
     let mut outs = vec![];
     let mut total: u128 = 0;
@@ -1078,6 +1195,8 @@ pub fn run(opts: &Opts) {
         "time" => exec_time,
         "resolve" => exec_resolve,
         "cap" => exec_cap,
+        "node" => node_stream::exec_node,
+        "rules" => rules_stream::exec_rules,
         _ => panic!("C04: unknown stream {stream}"),
     };
     if let Some(rp) = &opts.replay {
@@ -1114,17 +1233,21 @@ pub fn run(opts: &Opts) {
         out.finish("replay");
         return;
     }
-    let mut rng = Rng::new(opts.seed ^ match stream.as_str() { "time" => 0x71, "resolve" => 0x72, _ => 0x73 });
+    let mut rng = Rng::new(opts.seed ^ match stream.as_str() { "time" => 0x71, "resolve" => 0x72, "cap" => 0x73, "node" => 0x74, _ => 0x75 });
     let base = match stream.as_str() {
         "time" => 1500,
         "resolve" => 1500,
+        "node" => 24,
+        "rules" => 3000,
         _ => 4000,
     };
-    let cases = base * opts.scale * if opts.thorough() { if stream == "resolve" { 3 } else { 12 } } else { 1 };
+    let cases = base * opts.scale * if opts.thorough() { if stream == "resolve" { 3 } else if stream == "node" { 8 } else { 12 } } else { 1 };
     for _ in 0..cases {
         let lines = match stream.as_str() {
             "time" => gen_time(&mut rng),
             "resolve" => gen_resolve(&mut rng),
+            "node" => node_stream::gen_node(&mut rng),
+            "rules" => rules_stream::gen_rules(&mut rng),
             _ => gen_cap(&mut rng),
         };
         out.begin_case(&stream);
@@ -1133,7 +1256,9 @@ pub fn run(opts: &Opts) {
     let rule = match stream.as_str() {
         "time" => "a tx line is non-trivial if some input has a non-zero since or some referenced cell is a non-genesis cellbase output; fingerprint = phase / verdict class / (relative bit, metric, has-tx-info) per non-zero since",
         "resolve" => "every tx line; fingerprint = verdict class / #inputs / #deps (g if a dep group is used) / #header deps",
-        _ => "every cap line; fingerprint = verdict class / #inputs / #outputs / exemption",
+        "node" => node_stream::RULE,
+        "rules" => rules_stream::RULE,
+        _ => "every cap / occ / bytes line; fingerprint = verdict class / #inputs / #outputs / exemption",
     };
     out.finish(rule);
 }
